@@ -128,7 +128,9 @@ func Eval(c *core.Ctx, line string) *core.Case {
 func Wrap(r core.Runner) core.Runner {
 	return core.Runner{
 		Gen: func(c *core.Ctx) {
-			Gen(c)
+			if c.First() { // sharded run: the schedule search runs in the first shard only
+				Gen(c)
+			}
 			r.Gen(c)
 		},
 		Eval: func(c *core.Ctx, line string) *core.Case {
